@@ -1,7 +1,7 @@
 #!/bin/sh
 # tools/seed_eval.sh <ID> [check ids...]: demo on patched worktree vs clean /repo, then run the checks against the worktree
 id=$1; shift
-wt=/tmp/wt/$id
+wt=${WTROOT:-/tmp/wt}/$id
 echo "== $id: demo with change:"; (cd $wt && PYTHONPATH=$wt timeout 600 /venv/bin/python SEED/demo.py > /tmp/seed_demo_$id.log 2>&1; echo "exit=$?"; tail -2 /tmp/seed_demo_$id.log | cut -c1-200)
 echo "== $id: demo without change:"; (cd /tmp && PYTHONPATH=/repo timeout 600 /venv/bin/python $wt/SEED/demo.py > /tmp/seed_demo0_$id.log 2>&1; echo "exit=$?"; tail -1 /tmp/seed_demo0_$id.log | cut -c1-200)
 for c in ${@:-$id}; do
